@@ -92,6 +92,8 @@ def to_id(v, scale):
     v = float(v)
     if not math.isfinite(v):
         return None
+    if abs(v) > 2.0 ** 40:
+        return "?" + repr(v)
     s = v * scale          # exact: scale is a power of two
     if s != math.floor(s):
         return "?" + repr(v)
@@ -124,8 +126,9 @@ class Interpose:
         return False
 
 
-def call_plot(case, ds):
-    """Run the entry point of the case on the xarray dataset ds; returns the figure."""
+def call_plot(case, ds, arrays=None):
+    """Run the entry point of the case on the xarray dataset ds; returns the figure.  The numpy arrays handed
+    to an auto_* function are appended to `arrays` as (array, copy made before the call)."""
     import numpy as np
     import xyzpy
     kind, opts = case["kind"], dict(case["opts"])
@@ -139,12 +142,20 @@ def call_plot(case, ds):
             if case.get("auto_transposed"):
                 yz = np.transpose(yz)
             fn = xyzpy.auto_lineplot if kind == "lineplot" else xyzpy.auto_scatter
+            xv, yz = np.array(xv), np.array(yz)
+            if arrays is not None:
+                arrays += [(xv, xv.copy()), (yz, yz.copy())]
             return fn(xv, yz, return_fig=True, **opts)
         if kind == "histogram":
-            return xyzpy.auto_histogram(ds[case["x"]].values, return_fig=True, **opts)
+            arr = np.array(ds[case["x"]].values)
+            if arrays is not None:
+                arrays.append((arr, arr.copy()))
+            return xyzpy.auto_histogram(arr, return_fig=True, **opts)
         if kind == "heatmap":
             # auto_heatmap(array): array[y, z] -> x axis = first axis, y axis = second axis
-            arr = ds[case["z"]].transpose(case["x"], case["y"]).values
+            arr = np.array(ds[case["z"]].transpose(case["x"], case["y"]).values)
+            if arrays is not None:
+                arrays.append((arr, arr.copy()))
             return xyzpy.auto_heatmap(arr, return_fig=True, **opts)
     if kind in ("lineplot", "scatter"):
         kw = {k: case[k] for k in ("c", "y_err", "x_err") if case.get(k) is not None}
@@ -361,9 +372,10 @@ def run_case(case):
     before = ds.copy(deep=True)
     obs = {}
     fig = None
+    arrays = []
     with Interpose() as ip:
         try:
-            fig = call_plot(case, ds)
+            fig = call_plot(case, ds, arrays)
         except Exception as e:       # noqa
             tb = traceback.extract_tb(e.__traceback__)
             where = [f"{t.filename.split('/')[-1]}:{t.name}" for t in tb[-4:]]
@@ -376,7 +388,9 @@ def run_case(case):
                 tb = traceback.extract_tb(e.__traceback__)
                 obs["read_error"] = f"{type(e).__name__}: {str(e)[:160]} at {tb[-1].name}"
     try:
-        obs["pure"] = bool(ds.identical(before))
+        import numpy as np
+        obs["pure"] = bool(ds.identical(before)) and all(
+            a.shape == b.shape and np.array_equal(a, b, equal_nan=True) for a, b in arrays)
     except Exception as e:   # noqa
         obs["pure"] = False
     plt.close("all")
